@@ -75,3 +75,8 @@ M("c09-cic-yields-past-shield", "C09", A, "AsyncIOBackend.checkpoint_if_cancelle
 
 # from seeded change C09/e (round 3): the cancelled waiter removes something else than what it queued
 M("c09-cancelled-waiter-removes-wrong-object", "C09", A, "Lock.acquire", "                    self._waiters.remove(item)", "                    self._waiters.remove(fut)", ["R09-d"])
+
+# from seeded changes C09/g, C09/h (round 4)
+M("c09-aenter-checkpoints-after-acquire", "C09", SYNC, "Lock.__aenter__", "        await self.acquire()\n", "        await self.acquire()\n        await checkpoint_if_cancelled()\n", ["R09-g"])
+M("c09-release-drops-waiter-with-pending-cancel-request", "C09", A, "Lock.release", "            if fut.cancelled():\n                continue\n\n            self._owner_task = task",
+  "            if fut.cancelled() or task.cancelling() > 0:\n                continue\n\n            self._owner_task = task", ["R09-b"])
